@@ -323,6 +323,7 @@ type vEntry struct {
 	content  []byte
 	declared int64 // declared uncompressed size; -1: honest
 	deflate  bool  // stored deflated (real compress/flate writer) instead of as is
+	declaredHuge bool // the header declares 2^63 bytes (a zip64 size that is negative as an int64)
 }
 
 func vBuildZip(entries []vEntry) []byte {
@@ -355,6 +356,9 @@ func vBuildZip(entries []vEntry) []byte {
 		h.UncompressedSize64 = uint64(len(e.content))
 		if e.declared >= 0 {
 			h.UncompressedSize64 = uint64(e.declared)
+		}
+		if e.declaredHuge {
+			h.UncompressedSize64 = 1 << 63
 		}
 		fw, err := w.CreateRaw(h)
 		if err != nil {
